@@ -19,7 +19,7 @@ SPEC = {
                 "netip.ParseAddr lexes the server strings on the Go side (RSbad / RSnot6 / RS6 a); go-toml decodes the stanza",
                 "system.Addresser (rtnetlink address dump and flag decoding) enters the model as the input list"],
     "extra_targets": ["Legacy/WildcardRDNSSZone.v"],
-    "explanation": "The model mirrors parseRDNSS as repaired by fixes/rdnss-zone.diff (servers with an IPv6 zone are refused). On a tree "
+    "explanation": "The model mirrors parseRDNSS as repaired by fixes/rdnss-zone.diff (= /repo commit f20e750: servers with an IPv6 zone are refused). On a tree "
                    "without that patch the check reports VIOLATION with servers = [\"::\", \"fe80::1\", \"fe80::1%eth0\"]: both spellings are "
                    "accepted and fe80::1 is put into the RDNSS option twice (coq/Legacy/WildcardRDNSSZone.v, legacy_parse_rdnss_refuted).",
     "assumptions": ["addresses listed by the operating system carry no zone (configured servers with a zone are refused by the parser)",
